@@ -243,9 +243,13 @@ def run(ctx):
     if len(muts) < 8:
         raise T.TLCError("vacuity: mutations seen %s" % sorted(muts))
     # dataset relations
-    from sktime.datasets import load_gunpoint, load_arrow_head, load_italy_power_demand
+    from sktime.datasets import load_gunpoint, load_arrow_head, load_italy_power_demand, load_basic_motions, load_osuleaf
+    from sktime.datasets.base import load_japanese_vowels
     for name, loader, hf in (("GunPoint", load_gunpoint, True), ("ArrowHead", load_arrow_head, True),
-                             ("ItalyPowerDemand", load_italy_power_demand, False)):
+                             ("ItalyPowerDemand", load_italy_power_demand, False),
+                             # multivariate (12 and 6 dimensions: more than ten columns, unequal lengths)
+                             ("JapaneseVowels", load_japanese_vowels, False), ("BasicMotions", load_basic_motions, False),
+                             ("OSULeaf", load_osuleaf, False)):
         ctx.evaluations += 1
         try:
             d = dataset_record(name, loader, hf)
